@@ -1558,22 +1558,62 @@ def rule_T5(ctx):
     """every regular expression of the package is free of the constructs that make the backtracking matcher exponential
     (matching time is part of the CPU bound of C13: cue sheet lines, names and paths are input-controlled)"""
     from ..core import rx
-    from ..core.consts import NotConst
+    from ..core.consts import NotConst, RegexVal
     n = 0
+    seen = set()
+
+    def judge(node, pat, fl, m):
+        nonlocal n
+        key = (m.path, pat, fl)
+        if key in seen:
+            return
+        seen.add(key)
+        n += 1
+        try:
+            tree = rx.parse(pat if isinstance(pat, str) else pat.decode("latin-1"), fl & 0xFFFF)
+        except Exception as e:
+            raise AnalysisError("T5", where(node), f"pattern does not parse: {e}")
+        hz = rx.backtracking_hazards(tree)
+        ctx.ob("T5", node, "regex has no exponential-backtracking construct (nested unbounded repeats / overlapping alternatives under a repeat)", not hz,
+               f"{pat!r}: {'; '.join(hz)}" if hz else "", inst=f"regex:{m.path}:{pat!r}"[:120], file=m.path)
+
+    # (a) compiled regexes bound at module / class level (directly or through a pattern-building helper)
+    helper_built = set()
+    for m in ctx.prog.modules.values():
+        holders = [m.tree] + [c for c in ast.walk(m.tree) if isinstance(c, ast.ClassDef)]
+        for h in holders:
+            for st in h.body:
+                val = st.value if isinstance(st, (ast.Assign, ast.AnnAssign)) and getattr(st, "value", None) is not None else None
+                if val is None:
+                    continue
+                try:
+                    v = ctx.folder.ev(val, m)
+                except Exception:
+                    continue
+                if isinstance(v, RegexVal):
+                    judge(st, v.pattern, v.flags or 0, m)
+                    if isinstance(val, ast.Call) and isinstance(val.func, ast.Name):
+                        helper_built.add((m.path, val.func.id))
+    # (b) re.<function>(pattern, ...) calls anywhere
     for m in ctx.prog.modules.values():
         for c in ast.walk(m.tree):
-            if not (isinstance(c, ast.Call) and isinstance(c.func, ast.Attribute) and c.func.attr in _RE_FUNCS and isinstance(c.func.value, ast.Name)):
+            if not (isinstance(c, ast.Call) and isinstance(c.func, ast.Attribute) and c.func.attr in _RE_FUNCS and isinstance(c.func.value, ast.Name) and c.func.value.id == "re"):
                 continue
-            r = ctx.prog.resolve(m, c.func.value.id)
-            if not (r and r[0] in ("ext", "module") and (r[1] == "re" or (r[0] == "ext" and r[1] == "re"))):
-                if not (c.func.value.id == "re" and r is not None and r[0] == "ext"):
-                    continue
-            if not c.args:
+            r = ctx.prog.resolve(m, "re")
+            if r is None or r[0] != "ext" or not c.args:
                 continue
-            n += 1
             try:
                 pat = ctx.folder.ev(c.args[0], m)
             except NotConst as e:
+                # inside a helper whose every use was folded to a constant regex in (a): judged there
+                par = c
+                while par is not None and not isinstance(par, (ast.FunctionDef, ast.AsyncFunctionDef)):
+                    par = getattr(par, "_parent", None)
+                uses = [u for u in ast.walk(m.tree) if isinstance(u, ast.Call) and isinstance(u.func, ast.Name) and par is not None and u.func.id == par.name]
+                if par is not None and (m.path, par.name) in helper_built and uses and all(
+                        isinstance(getattr(u, "_parent", None), (ast.Assign, ast.AnnAssign)) and isinstance(getattr(u._parent, "_parent", None), (ast.Module, ast.ClassDef)) for u in uses):
+                    continue
+                n += 1
                 ctx.ob("T5", c, "regex pattern is a constant of the package (its matching cost can be judged)", False, f"`{norm(c.args[0])[:60]}`: {e}",
                        inst=f"regex-const:{m.path}:{norm(c.args[0])[:40]}", file=m.path)
                 continue
@@ -1586,11 +1626,5 @@ def rule_T5(ctx):
                         fl = int(ctx.folder.ev(k.value, m))
                     except Exception:
                         fl = 0
-            try:
-                tree = rx.parse(pat if isinstance(pat, str) else pat.decode("latin-1"), fl & 0xFFFF)
-            except Exception as e:
-                raise AnalysisError("T5", where(c), f"pattern does not parse: {e}")
-            hz = rx.backtracking_hazards(tree)
-            ctx.ob("T5", c, "regex has no exponential-backtracking construct (nested unbounded repeats / overlapping alternatives under a repeat)", not hz,
-                   f"{pat!r}: {'; '.join(hz)}" if hz else "", inst=f"regex:{m.path}:{pat!r}"[:120], file=m.path)
+            judge(c, pat, fl, m)
     ctx.fact("T5", "regexes", n)
